@@ -149,9 +149,9 @@ def _run(F, R, ctx):
     R.inst("C03.p", "%d in-place fast paths use the checked accessor" % len(sites), True, sample={"sites": sorted(set(sites))[:20]})
 
 
-def jit_move_rule(F, R):
+def jit_move_rule(F, R, rid="C03.m"):
     from . import jitmodel
-    R.rule("C03.m", "the JIT moves a local out of its slot (MOVEREADLOCAL* → MaybeStackValue::MutRegister) only after every "
+    R.rule(rid, "the JIT moves a local out of its slot (MOVEREADLOCAL* → MaybeStackValue::MutRegister) only after every "
                     "pending by-reference read of that slot on the shadow stack has been turned into a value: each construction "
                     "of MutRegister in the translator is cut off from the function entry by a loop that calls "
                     "immutable_register_to_value (directly, or in a helper whose call lies on a loop) — reifying only the first "
@@ -177,9 +177,9 @@ def jit_move_rule(F, R):
         for a in movers:
             n += 1
             ok = bool(via) and f.every_path_passes_from([0], [a], via)[0]
-            R.inst("C03.m", "%s / pending reads are reified in a loop before the move" % f.short(), ok,
+            R.inst(rid, "%s / pending reads are reified in a loop before the move" % f.short(), ok,
                    "%s builds MaybeStackValue::MutRegister (a move out of the local's slot, line %s) on a path that has not "
                    "run a loop reifying every pending read of that slot: (list m m (hash-insert m 'a 1)) compiled by the JIT "
                    "lets the second `m` read the slot after it was moved into the in-place insert" % (
                        f.short(), [e[3] for _, _, e in f.events("agg") if e[2] == "MutRegister"][:1]), f.loc(), sample=True)
-    R.floor("C03.m", "MutRegister constructions in the translator", n, 2)
+    R.floor(rid, "MutRegister constructions in the translator", n, 2)
